@@ -306,6 +306,19 @@ structure BindReq where
   queryOK : Bool                -- the URL query string parses without error (`query` holds the well-formed pairs)
 deriving Inhabited
 
+/-- how a request declares the length of its body: `Request.ContentLength` is `n ≥ 0`, or `-1` for
+    a body of unknown length (streaming client, `Transfer-Encoding: chunked`) -/
+inductive BodyLen where
+  | known (n : Nat)
+  | unknown
+deriving DecidableEq, Repr, Inhabited
+
+/-- the only thing `BindBody` takes from the declared length: `if req.ContentLength == 0 { return }`.
+    The body itself is read to its end by the decoders / form parsers, whatever was declared. -/
+def BodyLen.hasBody : BodyLen → Bool
+  | .known 0 => false
+  | _ => true
+
 inductive Status where
   | ok | bad | unsupported | panic
 deriving DecidableEq, Repr, Inhabited
